@@ -407,8 +407,13 @@ def observe_map(task, rep, workdir):
                                 Saenger[sg] if sg else None))
         m = Mapping2D3D(s3, bps, [], False)
         text = None
-        for a, fn in (("bpseq", lambda: str(m.bpseq)), ("map_dot_bracket", lambda: m.dot_bracket),
-                      ("ext_dot_bracket", lambda: m.extended_dot_bracket)):
+        questions = [("bpseq", lambda: str(m.bpseq)), ("map_dot_bracket", lambda: m.dot_bracket),
+                     ("ext_dot_bracket", lambda: m.extended_dot_bracket)]
+        if rep % 2 == 0:
+            # environment action: even repetitions ask a fresh object for its extended rows FIRST - an answer must
+            # not depend on which other answers the object has already given
+            questions = questions[2:] + questions[:2]
+        for a, fn in questions:
             try:
                 v = fn()
                 if a == "bpseq":
